@@ -259,5 +259,20 @@ Theorem C16_wiring_Slice_column_index :
 Proof. exact Proofs.GenAgreeWiring_C16.gen_wiring_Slice_column_index. Qed.
 Print Assumptions C16_wiring_Slice_column_index.
 
+Theorem C16_wiring_SecondOrderMeasures_column_index :
+  wsrc_SecondOrderMeasures_column_index = Some (WCall (WGlobal "_ColumnIndex") [WSelf "_dimensions";
+      WVar "self"; WSelf "_cube_measures"] []).
+Proof. exact Proofs.GenAgreeWiring_C16.gen_wiring_SecondOrderMeasures_column_index. Qed.
+Print Assumptions C16_wiring_SecondOrderMeasures_column_index.
+
+Theorem C16_wiring_MatrixCubeMeasures_unconditional_cube_counts :
+  wsrc_MatrixCubeMeasures_unconditional_cube_counts = Some (WCall (WAttr (WGlobal
+      "_BaseUnconditionalCubeCounts") "factory") [WSelf "_cube"; WSelf "_dimensions"; WIf (WCmp ">"
+      (WAttr (WSelf "_cube") "ndim") (WInt (2)%Z)) (WIndex (WAttr (WAttr (WIndex (WAttr (WSelf
+      "_cube") "dimensions") [WInt (0)%Z]) "valid_elements") "element_idxs") [WSelf "_slice_idx"])
+      (WSelf "_slice_idx")] []).
+Proof. exact Proofs.GenAgreeWiring_C16.gen_wiring_MatrixCubeMeasures_unconditional_cube_counts. Qed.
+Print Assumptions C16_wiring_MatrixCubeMeasures_unconditional_cube_counts.
+
 End Wiring_C16.
 (* ---- WIRING-APPENDIX:END ---- *)
